@@ -8,9 +8,9 @@ import (
 
 	"github.com/makiuchi-d/gozxing"
 	"github.com/makiuchi-d/gozxing/common"
+	"github.com/makiuchi-d/gozxing/datamatrix"
 	dmdec "github.com/makiuchi-d/gozxing/datamatrix/decoder"
 	dmenc "github.com/makiuchi-d/gozxing/datamatrix/encoder"
-	"github.com/makiuchi-d/gozxing/datamatrix"
 	qrdec "github.com/makiuchi-d/gozxing/qrcode/decoder"
 	qrenc "github.com/makiuchi-d/gozxing/qrcode/encoder"
 
@@ -896,10 +896,10 @@ func C05() *kit.Spec {
 		},
 		Components: map[string]string{
 			"qrcode/encoder.Encoder_encode, datamatrix.DataMatrixWriter": "real (primary sender)",
-			"qrref.BuildSymbol / dmref.BuildSymbol":                       "stub sender (reference, secondary)",
-			"module-matrix medium":                                        "simulated (harness)",
-			"qrcode/decoder.Decoder, datamatrix/decoder.Decoder":          "real (receiver)",
-			"qrref / dmref layouts, gf":                                   "reference model (harness)",
+			"qrref.BuildSymbol / dmref.BuildSymbol":                      "stub sender (reference, secondary)",
+			"module-matrix medium":                                       "simulated (harness)",
+			"qrcode/decoder.Decoder, datamatrix/decoder.Decoder":         "real (receiver)",
+			"qrref / dmref layouts, gf":                                  "reference model (harness)",
 		},
 		FaultKinds:  []string{"cw", "fmt1", "fmt2", "ver1", "ver2"},
 		SimTimeNote: "none: no timers; logical steps = symbols transmitted",
